@@ -136,7 +136,7 @@ func (w *WebsocketConnection) handlePing() {
 // unless the connection was already closed
 func (w *WebsocketConnection) closeWithError(err error, reason string) {
 	logging.Log().Debug(w.remoteSki, reason, err)
-	if w.shutdown(err) {
+	if w.shutdown(err, nil) {
 		w.dataProcessing.ReportConnectionError(err)
 	}
 }
@@ -218,19 +218,26 @@ func (w *WebsocketConnection) checkWebsocketMessage(msgType int, data []byte) er
 
 // close the current websocket connection
 func (w *WebsocketConnection) close() {
-	_ = w.shutdown(nil)
+	_ = w.shutdown(nil, nil)
 }
 
 // mark the connection as closed, release the pumps and pending writers and
 // close the network connection. This is done only once, the return value
 // tells if this invocation did it
-func (w *WebsocketConnection) shutdown(err error) bool {
+//
+// farewell is invoked after the connection is marked as closed and before the
+// network connection is closed
+func (w *WebsocketConnection) shutdown(err error, farewell func()) bool {
 	didShutdown := false
 
 	w.shutdownOnce.Do(func() {
 		didShutdown = true
 
 		w.setConnClosedError(err)
+
+		if farewell != nil {
+			farewell()
+		}
 
 		if w.closeChannel != nil {
 			close(w.closeChannel)
@@ -302,11 +309,19 @@ func (w *WebsocketConnection) writeMessageWithoutErrorHandling(messageType int, 
 // shutdown the connection and all internals
 func (w *WebsocketConnection) CloseDataConnection(closeCode int, reason string) {
 	// send a close message to the remote side if we have a reason
-	if reason != "" {
-		_ = w.writeMessageWithoutErrorHandling(websocket.CloseMessage, websocket.FormatCloseMessage(closeCode, reason))
-	}
+	//
+	// the connection is marked as closed first, otherwise the reply of the remote
+	// side to the close message could be reported as a connection error
+	_ = w.shutdown(nil, func() {
+		if reason == "" || w.conn == nil {
+			return
+		}
 
-	w.close()
+		w.muxConWrite.Lock()
+		defer w.muxConWrite.Unlock()
+
+		_ = w.conn.WriteMessage(websocket.CloseMessage, websocket.FormatCloseMessage(closeCode, reason))
+	})
 }
 
 // return if the connection is closed
